@@ -468,7 +468,7 @@ def carrier(t, rng, cap, depth=0):
 
 def gen_cases(tier, seed):
     rng = lib.rng_for(seed, PROP)
-    cap = 28 if tier == "quick" else 130
+    cap = 32 if tier == "quick" else 130
     tcap = 5 if tier == "quick" else 13
     cases = []
     for tag, t in TYPES.items():
